@@ -1,3 +1,3 @@
-(* _client.py :: ncrypt_unprotect_secret :: ('callarg', '_sync_get_key', 0, 3) :  blob.key_identifier.l0 *)
-Definition k_onl_unprot_arg3 (blob_key_identifier_l0 : Z) : Z :=
-  blob_key_identifier_l0.
+(* _client.py :: ncrypt_unprotect_secret :: shape kernel :  _sync_get_key(... 3: blob.key_identifier.l0  [= DPAPINGBlob.unpack(data).key_identifier.l0] ...) *)
+Definition k_onl_unprot_arg3 (l0 : Z) : Z :=
+  l0.
